@@ -24,6 +24,7 @@ from vgi_rpc.external import (
 )
 from vgi_rpc.log import Level, Message
 from vgi_rpc.metadata import (
+    ERROR_KIND_KEY,
     LOG_EXTRA_KEY,
     LOG_LEVEL_KEY,
     LOG_MESSAGE_KEY,
@@ -636,7 +637,16 @@ def _dispatch_log_or_error(
     if level_str == Level.EXCEPTION.value:
         error_type = str(raw_extra_data.get("exception_type", level_str))
         traceback_str = str(raw_extra_data.get("traceback", ""))
-        raise RpcError(error_type, message_str, traceback_str, request_id=request_id)
+        # Stable error category: the top-level key, or its mirror in log_extra.
+        error_kind: str | None = None
+        kind_bytes = custom_metadata.get(ERROR_KIND_KEY)
+        if kind_bytes is not None:
+            error_kind = kind_bytes.decode()
+        else:
+            extra_kind = raw_extra_data.get("error_kind")
+            if isinstance(extra_kind, str):
+                error_kind = extra_kind
+        raise RpcError(error_type, message_str, traceback_str, request_id=request_id, error_kind=error_kind)
 
     # Non-exception log message → invoke callback
     # Coerce all extra values to str for Message(**extra)
